@@ -102,6 +102,39 @@ def run(ctx):
             return fp.Case(mb, info, cmds=cmds, data=data, desc=[("same-scale ops", ".*", "*", cfg["act"]["bits"])])
         return fp.gen_case(rng, i)
     fp.explore(ctx, drv, 600 if ctx.tier == "quick" else 3000, per_case, gen=gen, graph_corr=False, mat_corr=True)
+    # "... under the configured bit width, symmetry and GRANULARITY": BLOCKWISE weights (reachable with skip_checks only; emulated
+    # sub-channel pattern) must carry one scale per (block of the reduction dimension, output channel): max|w| over the block / qmax
+    import numpy as np
+
+    def blockwise_scales(case, res):
+        mi, mo = pl.read(case.mb), pl.read(res["out"])
+        block = case.cmds[0]["cfg"]["weight"]["block"]
+        bits = case.cmds[0]["cfg"]["weight"]["bits"]
+        gi = mi.subgraphs[0]
+        for op in gi.operators:
+            if pl.BO_NAME.get(mi.operatorCodes[op.opcodeIndex].builtinCode) != "FULLY_CONNECTED":
+                continue
+            tw = gi.tensors[op.inputs[1]]
+            if mi.buffers[tw.buffer].data is None:
+                continue
+            w = np.frombuffer(bytes(np.asarray(mi.buffers[tw.buffer].data, dtype=np.uint8)), dtype="<f4").astype(np.float64).reshape([int(x) for x in tw.shape])
+            o, f = w.shape
+            sc_t = next((t for t in mo.subgraphs[0].tensors if pl.tname(t).startswith(pl.tname(tw) + "_scale")), None)
+            if sc_t is None:
+                continue
+            sc = np.frombuffer(bytes(np.asarray(mo.buffers[sc_t.buffer].data, dtype=np.uint8)), dtype="<f4").astype(np.float64)
+            want = np.maximum(np.abs(w.reshape(o, f // block, block)).max(axis=2).T, 1e-4) / (2 ** (bits - 1) - 1)   # [blocks, channels]
+            ctx.tag("blockwise_scales_checked")
+            if sc.size != want.size or np.any(np.abs(sc.reshape(-1) - want.reshape(-1)) > 1e-5 * want.reshape(-1)):
+                return ctx.fail(f"BLOCKWISE weight {pl.tname(tw)} [{o},{f}] with block size {block} carries {sc.size} scale(s) {list(sc_t.shape)}; the configured "
+                                f"granularity asks for one per (block, channel) = {want.size}: max|w| of each block / {2 ** (bits - 1) - 1}",
+                                case.replay(), "blockwise-scales-per-channel" if sc.size == o else "blockwise-scales")
+    interp = pl.Interp()
+    try:
+        fp.blockwise_probe(ctx, drv, interp, 6 if ctx.tier == "quick" else 40, extra=blockwise_scales, only_8_bits=True)
+    except Exception as e:  # noqa: BLE001
+        ctx.fail(f"the BLOCKWISE probe could not run ({type(e).__name__}: {str(e)[:100]})", {}, "blockwise-probe-crash")
+    interp.close()
     drv.close()
     return common.finish(ctx)
 
